@@ -122,4 +122,68 @@ def json_short(x):
     return json.dumps(x)[:300]
 
 
-CONFIRM = {'tree': c_tree, 'decode': c_decode, 'decode_bytes': c_decode, 'decoder_step': c_decode, 'roundtrip': c_roundtrip, 'lines_only': c_lines_only, 'vlq': c_vlq}
+def rope_model(program):
+    """flat strings of the registers after the program (reference semantics); None when a slice is invalid"""
+    regs = []
+    for st in program:
+        op = st[0]
+        if op == 'new': regs.append('')
+        elif op == 'from': regs.append(st[1])
+        elif op == 'from_iter': regs.append(''.join(st[1]))
+        elif op == 'clone': regs.append(regs[st[1]])
+        elif op == 'add': regs[st[1]] += st[2]
+        elif op == 'append': regs[st[1]] += regs[st[2]]
+        elif op == 'slice':
+            b = regs[st[1]].encode('utf-8'); a_, b_ = st[2], st[3]
+            def bd(k): return k == 0 or k == len(b) or (k < len(b) and (b[k] & 0xC0) != 0x80)
+            if not (a_ <= b_ <= len(b) and bd(a_) and bd(b_)): return regs, ('none', len(regs))
+            regs.append(b[a_:b_].decode('utf-8'))
+    return regs, None
+
+
+def flat_lines(t, trailing):
+    out, cur = [], ''
+    for ch in t:
+        cur += ch
+        if ch == '\n': out.append(cur); cur = ''
+    if cur: out.append(cur)
+    elif trailing and (t == '' or t.endswith('\n')): out.append('')
+    return out
+
+
+def c_rope(cex, obs):
+    regs, stop = rope_model(cex['program'])
+    for prof, o in obs.items():
+        if o.get('signal') or o.get('error'): return True, '%s build: the process crashed (signal %s) - an unsafe precondition check aborted or memory was corrupted' % (prof, o.get('signal'))
+        if o.get('aborted'): return True, '%s build: a construction step panics: %r' % (prof, o.get('steps'))
+        nslices = [s for s in o.get('steps', []) if s in ('some', 'none')]
+        want = 'none' if stop else None
+        if stop and (not nslices or nslices[-1] != 'none'): return True, '%s build: get_byte_slice returned Some for an invalid range' % prof
+        if not stop and 'none' in nslices: return True, '%s build: get_byte_slice returned None for a valid range' % prof
+        each = o['regs']['each']
+        for i, (r, e) in enumerate(zip(regs, each)):
+            b = r.encode('utf-8')
+            exp = {'len': len(b), 'is_empty': len(b) == 0, 'to_string': r, 'to_bytes': r, 'ends_nl': r.endswith('\n'), 'ends_a': r.endswith('a'),
+                   'lines': flat_lines(r, True), 'lines_false': flat_lines(r, False)}
+            ci, k = [], 0
+            for ch in r:
+                ci.append([k, ch]); k += len(ch.encode('utf-8'))
+            exp['char_indices'] = ci
+            for key, val in exp.items():
+                g = e.get(key)
+                if g is None: continue
+                if 'panic' in g: return True, '%s build: r%d.%s panics: %s' % (prof, i, key, g['panic'])
+                if g['ok'] != val: return True, '%s build: r%d.%s = %r, the flat string gives %r' % (prof, i, key, g['ok'], val)
+            for k2, g in enumerate(e['get_byte']):
+                if 'panic' in g: return True, '%s build: r%d.get_byte(%d) panics: %s' % (prof, i, k2, g['panic'])
+                if g['ok'] != (b[k2] if k2 < len(b) else None): return True, '%s build: r%d.get_byte(%d) = %r' % (prof, i, k2, g['ok'])
+        for p in o['regs']['pairs']:
+            a, b2 = regs[p['a']], regs[p['b']]
+            for key, val in (('eq', a == b2), ('starts_with', a.startswith(b2)), ('eq_str', a == b2)):
+                g = p[key]
+                if 'panic' in g: return True, '%s build: r%d %s r%d panics: %s' % (prof, p['a'], key, p['b'], g['panic'])
+                if g['ok'] != val: return True, '%s build: r%d.%s(r%d) = %r, the flat strings give %r' % (prof, p['a'], key, p['b'], g['ok'], val)
+    return False, 'native rope observers agree with the flat strings'
+
+
+CONFIRM = {'rope': c_rope, 'tree': c_tree, 'decode': c_decode, 'decode_bytes': c_decode, 'decoder_step': c_decode, 'roundtrip': c_roundtrip, 'lines_only': c_lines_only, 'vlq': c_vlq}
